@@ -115,6 +115,13 @@ impl ByteArena {
         self.cache.as_ref().map(|c| c.verif_view())
     }
 
+    /// Verification hook: the arena's chunk size policy.
+    #[cfg(woodpile_verif)]
+    #[doc(hidden)]
+    pub fn verif_find_hint_size(len: usize, prev_capacity: usize) -> usize {
+        Self::find_hint_size(len, prev_capacity)
+    }
+
     /// Verification hook: address ranges of all live chunks in the process.
     #[cfg(woodpile_verif)]
     #[doc(hidden)]
